@@ -308,3 +308,51 @@ Proof.
   unfold lowerCase, upperCase. rewrite !map_map. split; apply map_ext; intro c; unfold tolower, toupper;
   repeat match goal with |- context [if ?b then _ else _] => destruct b eqn:? end; lia.
 Qed.
+
+(* ------------------------------------- the statements for split(set) and tokenize *)
+Lemma split_set_tokens s delims :
+  let isd := fun c => mem c delims in
+  exists seps core trail,
+    length seps = length core /\
+    Forall (all_in isd true) (trail :: seps) /\
+    Forall (fun sp => sp <> []) (tl seps) /\
+    Forall (tok_ok isd) core /\
+    s = wv seps core ++ trail /\
+    split_set s delims false = core /\
+    split_set s delims true = zipw true seps core.
+Proof. cbv zeta. unfold split_set. apply split_pred_runs. Qed.
+
+Lemma split_set_concat s delims :
+  concat (split_set s delims false) = filter (fun c => negb (mem c delims)) s /\
+  Forall (fun t => t <> [] /\ forall c, In c t -> mem c delims = false) (split_set s delims false).
+Proof.
+  split; [unfold split_set; apply split_pred_concat|].
+  destruct (split_set_tokens s delims) as (seps & core & trail & _ & _ & _ & Hcore & _ & -> & _).
+  eapply Forall_impl; [|exact Hcore]. intros t [Hne Hall]. split; [assumption|].
+  intros c Hc. unfold all_in in Hall. rewrite Forall_forall in Hall. now apply Hall.
+Qed.
+
+Lemma tokenize_tokens s d :
+  let isd := fun c => N.eqb c d in
+  exists seps core trail,
+    length seps = length core /\
+    Forall (all_in isd true) (trail :: seps) /\
+    Forall (fun sp => sp <> []) (tl seps) /\
+    Forall (tok_ok isd) core /\
+    s = wv seps core ++ trail /\
+    tokenize s d = core.
+Proof.
+  cbv zeta. rewrite tokenize_split_pred.
+  destruct (split_pred_runs (fun c => N.eqb c d) s) as (seps & core & trail & H1 & H2 & H3 & H4 & H5 & H6 & _).
+  exists seps, core, trail. repeat split; assumption.
+Qed.
+
+Lemma tokenize_concat s d :
+  concat (tokenize s d) = filter (fun c => negb (N.eqb c d)) s /\
+  Forall (fun t => t <> [] /\ ~ In d t) (tokenize s d).
+Proof.
+  split; [rewrite tokenize_split_pred; apply split_pred_concat|].
+  destruct (tokenize_tokens s d) as (seps & core & trail & _ & _ & _ & Hcore & _ & ->).
+  eapply Forall_impl; [|exact Hcore]. intros t [Hne Hall]. split; [assumption|].
+  intro I. unfold all_in in Hall. rewrite Forall_forall in Hall. apply Hall in I. now rewrite N.eqb_refl in I.
+Qed.
